@@ -61,7 +61,12 @@ pub fn small_boundary(bits: u16) -> Vec<BigUint> {
 
 pub fn shift_amounts(bits: u16) -> Vec<u64> {
     let w = bits as u64;
-    let mut v = vec![0, 1, w / 2, w - 1, w, w + 1, 63, 64, 65, 255, 256, 257, u64::MAX];
+    // the last group: amounts that only look small after a truncation to 32 bits (the folders and
+    // the big-integer helpers convert the amount to u32 / usize on the way)
+    let mut v = vec![
+        0, 1, w / 2, w - 1, w, w + 1, 63, 64, 65, 255, 256, 257, u64::MAX,
+        (1 << 32) - 1, 1 << 32, (1 << 32) + 1, (1 << 32) + w - 1, 1 << 63,
+    ];
     v.sort();
     v.dedup();
     v
@@ -430,12 +435,16 @@ enum Step {
 /// All type trees with exactly `size` constructor nodes over leaves {u8, u64, bool} (b256 as
 /// an extra leaf when `size == 0`). Struct/enum declarations are appended to `d`.
 fn type_trees(size: usize, d: &mut Decls) -> Vec<Ty> {
+    type_trees_over(size, d, &[Ty::U8, Ty::U64, Ty::Bool, Ty::B256, Ty::U256])
+}
+
+fn type_trees_over(size: usize, d: &mut Decls, leaves: &[Ty]) -> Vec<Ty> {
     if size == 0 {
-        return vec![Ty::U8, Ty::U64, Ty::Bool, Ty::B256, Ty::U256];
+        return leaves.to_vec();
     }
     let mut out = vec![];
     // unary-ish constructors: array of 2, struct of 1 field
-    for inner in type_trees(size - 1, d) {
+    for inner in type_trees_over(size - 1, d, leaves) {
         out.push(Ty::Array(Box::new(inner.clone()), 2));
         let si = d.structs.len();
         d.structs.push(StructDecl {
@@ -447,8 +456,8 @@ fn type_trees(size: usize, d: &mut Decls) -> Vec<Ty> {
     // binary constructors: tuple2, struct2 with children sizes l + r = size - 1
     for l in 0..size {
         let r = size - 1 - l;
-        let ls = type_trees(l, d);
-        let rs = type_trees(r, d);
+        let ls = type_trees_over(l, d, leaves);
+        let rs = type_trees_over(r, d, leaves);
         for a in &ls {
             for b in &rs {
                 out.push(Ty::Tuple(vec![a.clone(), b.clone()]));
@@ -561,6 +570,18 @@ fn path_lv(base: &str, p: &[Step], var_index: bool) -> LValue {
 pub fn s3(size: usize) -> Vec<Case> {
     let mut decls = Decls::default();
     let tys = type_trees(size, &mut decls);
+    s3_over(size, "S3", decls, tys)
+}
+
+/// The size-2 type trees over the leaves {u8, u64} only (mixed sizes give every aggregate member a
+/// non-zero, partly unaligned-looking offset) — the quick-tier slice of `s3(2)`.
+pub fn s3_size2_small() -> Vec<Case> {
+    let mut decls = Decls::default();
+    let tys = type_trees_over(2, &mut decls, &[Ty::U8, Ty::U64]);
+    s3_over(2, "S3", decls, tys)
+}
+
+fn s3_over(size: usize, space: &'static str, decls: Decls, tys: Vec<Ty>) -> Vec<Case> {
     let mut out = vec![];
     for (ti, t) in tys.iter().enumerate() {
         if size == 0 && !matches!(t, Ty::U64 | Ty::U256 | Ty::B256) {
@@ -633,9 +654,14 @@ pub fn s3(size: usize) -> Vec<Case> {
                     Stmt::Let("a".into(), false, None, build_expr(&v0)),
                     Stmt::Let("b".into(), true, None, var("a")),
                     Stmt::Assign(path_lv("b", path, var_index), opq(lit(n1.clone()))),
+                    // direct projections of the locals (constant or variable index as the path says),
+                    // in the block that built and copied the aggregates
+                    Stmt::Log(lvalue_to_expr(&path_lv("a", path, var_index))),
+                    Stmt::Log(lvalue_to_expr(&path_lv("b", path, var_index))),
                     Stmt::Log(var("a")),
                     Stmt::Log(var("b")),
                     Stmt::Let("c".into(), false, None, call("byval", vec![var("a"), opq(lit(n2.clone()))])),
+                    Stmt::Log(lvalue_to_expr(&path_lv("c", path, var_index))),
                     Stmt::Log(var("a")),
                     Stmt::Log(var("c")),
                     Stmt::Expr(call("refmut", vec![var("b"), opq(lit(n3.clone()))])),
@@ -661,7 +687,7 @@ pub fn s3(size: usize) -> Vec<Case> {
                     t.print(&d),
                     if var_index { " varidx" } else { "" }
                 );
-                out.push(finish(desc, "S3", prog, body));
+                out.push(finish(desc, space, prog, body));
             }
         }
     }
@@ -1280,6 +1306,8 @@ pub fn corpus(thorough: bool) -> Vec<Case> {
     v.extend(s3(1));
     if thorough {
         v.extend(s3(2));
+    } else {
+        v.extend(s3_size2_small());
     }
     v.extend(s3_enums());
     v.extend(s3_arrays());
